@@ -351,11 +351,25 @@ impl<'c, 's> Run<'c, 's> {
         self.ev("deliver", &[ni as u64, fi.map(|f| f as u64).unwrap_or(9999)], &b);
 
         let (off, end) = self.stage(ni, &b, true);
-        let d = real::decode(&self.nodes[ni].ctx, &self.nodes[ni].rxbuf[off..end]);
+        let mode = self.nodes[ni].cfg.call_mode;
+        let mut d = Dec::Panic(PanicKind::Other);
+        if mode == 0 {
+            d = real::decode(&self.nodes[ni].ctx, &self.nodes[ni].rxbuf[off..end]);
+        }
         let (p, rlen) = {
             let node = &mut self.nodes[ni];
             real::process(&node.ctx, &node.rxbuf[off..end], &mut node.resp)
         };
+        if mode == 1 {
+            d = real::decode(&self.nodes[ni].ctx, &self.nodes[ni].rxbuf[off..end]);
+        } else if mode == 2 {
+            // the driver never calls decode_packet on this node; the oracles' decode result comes
+            // from a throw-away context with the same configuration (the outcome depends on the bytes alone)
+            let nc = self.nodes[ni].cfg;
+            let scratch = libmctp::smbus::MCTPSMBusContext::new(nc.addr, &nc.types, &nc.vendors);
+            d = real::decode(&scratch, &self.nodes[ni].rxbuf[off..end]);
+            self.st.probe("delivery-process-only");
+        }
         self.st.lib_calls += 2;
         if self.tracing() {
             self.tr(format!("   node{} decode_packet -> {} ; process_packet -> {} response={:?}", ni, d.show(), p.show(), rlen));
@@ -471,7 +485,10 @@ impl<'c, 's> Run<'c, 's> {
         // ---- reference model (C13) and answer oracles (C12 C13 C14 C15)
         let pr = parse(&b);
         let accepted_req = p.is_ok() && rlen.is_some() && pr.control && pr.rq && n >= 12;
-        let mut cause: &'static str = if !d.is_ok() {
+        let mut cause: &'static str = if !pec {
+            // C13: "rejected or corrupted packets ... leave it as it was" — whatever the library's verdict
+            "after-corrupted-packet"
+        } else if !d.is_ok() {
             "after-rejected-packet"
         } else if !pr.control {
             "after-vendor-or-spdm-message"
@@ -484,7 +501,7 @@ impl<'c, 's> Run<'c, 's> {
             Some(l) if l <= self.nodes[ni].resp.len() => self.nodes[ni].resp[..l].to_vec(),
             _ => Vec::new(),
         };
-        if accepted_req && pr.cmd == 0x01 && n >= 14 {
+        if accepted_req && pr.cmd == 0x01 && n >= 14 && pec {
             let (op, e) = (b[11], b[12]);
             if op == 0 || op == 1 {
                 cause = "after-assignment";
@@ -581,6 +598,7 @@ impl<'c, 's> Run<'c, 's> {
         self.check_state(ni, cause);
 
         if accepted_req {
+            self.c07_process(ni, &b, &resp);
             self.c12_wire(ni, own, &b, &resp, n_sets);
             self.identity_answers(ni, &b, &resp);
         }
@@ -628,6 +646,76 @@ impl<'c, 's> Run<'c, 's> {
         // firmware reset after a crash (N1)
         if (d.is_panic() || p.is_panic()) && !self.draining && self.ch.chance(self.cfg.rate[F_PANIC_RESTART], 1000) {
             self.op_restart(ni, true);
+        }
+    }
+
+    // ------------------------------------------------------------ C07 on responses written by process_packet
+
+    /// marshalling of a generated response: header bits, command, fixed field sizes, and the EID
+    /// field equal to what the context has stored *now* (whether that value is right is C13's matter)
+    fn c07_process(&mut self, ni: usize, req: &[u8], r: &[u8]) {
+        use libmctp::mctp_traits::SMBusMCTPRequestResponse;
+        let cmd = req[10];
+        if !(1..=6).contains(&cmd) {
+            return;
+        }
+        self.eval(Prop::C07, "C07/generated-response-layout");
+        let len = r.len();
+        if len < 13 {
+            self.viol(Prop::C07, "C07/process-response/too-short".into(), format!("response {} to {}", hex(r), hex(req)));
+            return;
+        }
+        if r[9] & 0xE0 != 0 {
+            self.viol(Prop::C07, "C07/process-response/control-header-bits".into(), format!("response {} to {}", hex(r), hex(req)));
+        }
+        if r[10] != cmd {
+            self.viol(Prop::C07, "C07/process-response/command-code".into(), format!("response {} to {}", hex(r), hex(req)));
+        }
+        if r[11] != 0 {
+            return;
+        }
+        let (sq, ss) = {
+            let nd = &self.nodes[ni];
+            (nd.ctx.get_request().get_eid(), nd.ctx.get_response().get_eid())
+        };
+        let bad: Option<&'static str> = match cmd {
+            1 => {
+                if len != 16 {
+                    Some("set-eid-length")
+                } else if r[13] != ss && r[13] != sq {
+                    Some("set-eid-current-eid")
+                } else if r[14] != 0 || r[12] & 0xCC != 0 {
+                    Some("set-eid-status-or-pool")
+                } else {
+                    None
+                }
+            }
+            2 => {
+                if len != 16 {
+                    Some("get-eid-length")
+                } else if r[12] != ss && r[12] != sq {
+                    Some("get-eid-current-eid")
+                } else if r[13] & 0xCC != 0 || r[14] & 0xFE != 0 {
+                    Some("get-eid-type-bits")
+                } else {
+                    None
+                }
+            }
+            3 => (len != 29).then_some("uuid-length"),
+            4 => (req.len() == 13 && (len != 18 || r[12..17] != [1, 0xF1, 0xF3, 0xF1, 0x00])).then_some("version-entry"),
+            5 => (r[12] as usize != len - 14).then_some("message-type-count-vs-list"),
+            _ => {
+                let f = &r[13..len - 1];
+                let ok = !f.is_empty() && ((f[0] == 0 && f.len() == 5) || (f[0] == 1 && f.len() == 7));
+                (!ok).then_some("vendor-field-shape")
+            }
+        };
+        if let Some(w) = bad {
+            self.viol(
+                Prop::C07,
+                format!("C07/process-response/{}", w),
+                format!("node{}: response {} to request {} (stored EID req={:#04x} resp={:#04x})", ni, hex(r), hex(req), sq, ss),
+            );
         }
     }
 
